@@ -324,7 +324,7 @@ def thread_stress(ctx, spec, rng):
     import someip.sd as S
 
     prot = S.ServiceDiscoveryProtocol(net.MCAST)
-    ss = prot.session_storage
+    ss = getattr(prot, "session_storage", None)
     fn = getattr(type(ss), "assign_outgoing", None)
     if fn is None:
         ctx.count("thread_stress_unavailable")
